@@ -86,8 +86,8 @@ pub fn checks() -> Vec<Check> {
     v.push(Check {
         prop: "C08",
         parts: vec![
-            Part { name: bitmap::CONC.name(), xen: false, quick: 300_000, thorough: 12_000_000 },
-            Part { name: bitmap::CANON.name(), xen: false, quick: 60_000, thorough: 600_000 },
+            Part { name: bitmap::CONC.name(), xen: false, quick: 3_000_000, thorough: 150_000_000 },
+            Part { name: bitmap::CANON.name(), xen: false, quick: 300_000, thorough: 3_000_000 },
         ],
         rule: "runs are seeded executions of 2-3 coroutine actors doing 1-4 bitmap operations each, switched at every atomic word operation; distinct = distinct event-log hash (operations + interleaving of atomic steps); non-trivial = at least one context switch happened inside an operation and at least one mark and one harvest/reset/clone ran",
         assumptions: COMMON_ASSUMPTIONS.to_vec(),
@@ -97,7 +97,7 @@ pub fn checks() -> Vec<Check> {
     });
     v.push(Check {
         prop: "C09",
-        parts: vec![Part { name: bitmap::MODEL.name(), xen: false, quick: 150_000, thorough: 6_000_000 }],
+        parts: vec![Part { name: bitmap::MODEL.name(), xen: false, quick: 300_000, thorough: 20_000_000 }],
         rule: "runs are seeded histories of up to 40 public bitmap operations by 1-3 actors switched between operations, checked step by step against a BTreeSet model; distinct = distinct event-log hash; non-trivial = at least one state-changing operation had an effect and at least one out-of-range or ignored request occurred",
         assumptions: COMMON_ASSUMPTIONS.to_vec(),
         real: vec!["vm_memory::bitmap::AtomicBitmap, BaseSlice/RefSlice/ArcSlice, Option<B>, () (compiled from /repo working tree)"],
@@ -106,7 +106,7 @@ pub fn checks() -> Vec<Check> {
     });
     v.push(Check {
         prop: "C04",
-        parts: vec![Part { name: mem::MEM.name(), xen: false, quick: 150_000, thorough: 6_000_000 }],
+        parts: vec![Part { name: mem::MEM.name(), xen: false, quick: 1_500_000, thorough: 60_000_000 }],
         rule: "runs are seeded histories of up to 30 accessor operations (buffers, objects, typed refs, element arrays, element-wise and slice-to-slice copies, atomics, references, in-memory streams) by 1-3 actors switched between operations on 1-2 containers (VolatileSlice over simulated RAM with guard pages and canaries, or an anonymous MmapRegion), reached through derivation chains; distinct = distinct event-log hash; non-trivial = at least one operation succeeded and at least one was rejected or cut off",
         assumptions: COMMON_ASSUMPTIONS.to_vec(),
         real: vec!["vm_memory::volatile_memory (VolatileSlice, VolatileRef, VolatileArrayRef, copy_slice_impl), Bytes, MmapRegion (compiled from /repo working tree)", "kernel mmap for the region container"],
@@ -115,7 +115,7 @@ pub fn checks() -> Vec<Check> {
     });
     v.push(Check {
         prop: "C06",
-        parts: vec![Part { name: tear::TEAR.name(), xen: false, quick: 300_000, thorough: 12_000_000 }],
+        parts: vec![Part { name: tear::TEAR.name(), xen: false, quick: 3_000_000, thorough: 150_000_000 }],
         rule: "runs are seeded races of one writer (alternating two values, <= 3 writes) and one reader (<= 3 reads) on the same 1-8 guest bytes through one of 12 entry points each, at slice / region / guest-memory level, switched before every primitive guest access (and between the bytes of a bulk copy); distinct = distinct event-log hash; non-trivial = a context switch happened inside an operation and at least one side is in the class for which atomicity is demanded (length 1/2/4/8, guest and local address aligned to it)",
         assumptions: COMMON_ASSUMPTIONS.to_vec(),
         real: vec!["vm_memory copy_slice_impl, VolatileSlice/VolatileRef/VolatileArrayRef, Bytes at slice/region/guest-memory level, in-memory stream adapters, atomic load/store (compiled from /repo working tree)"],
@@ -124,7 +124,7 @@ pub fn checks() -> Vec<Check> {
     });
     v.push(Check {
         prop: "C14",
-        parts: vec![Part { name: stream::STREAM.name(), xen: false, quick: 200_000, thorough: 8_000_000 }],
+        parts: vec![Part { name: stream::STREAM.name(), xen: false, quick: 2_000_000, thorough: 100_000_000 }],
         rule: "runs are 1-3 stream transfers (read_volatile_from, read_exact_volatile_from, write_volatile_to, write_all_volatile_to, the default exact loops) on a slice, a region or guest memory of 2-3 regions (touching or with holes), driven against a scripted reader/writer whose per-call behaviour (full, short by k, zero, interrupted xN, hard error of several kinds) comes from the tape; distinct = distinct event-log hash; non-trivial = the script of at least one transfer contained a fault",
         assumptions: COMMON_ASSUMPTIONS.to_vec(),
         real: vec!["vm_memory::io default loops and retry_eintr!, VolatileSlice / GuestRegionMmap / GuestMemory stream methods, try_access (compiled from /repo working tree)", "kernel mmap for regions"],
@@ -134,8 +134,8 @@ pub fn checks() -> Vec<Check> {
     v.push(Check {
         prop: "C13",
         parts: vec![
-            Part { name: io::IOMEM.name(), xen: false, quick: 200_000, thorough: 8_000_000 },
-            Part { name: io::IOFD.name(), xen: false, quick: 100_000, thorough: 3_000_000 },
+            Part { name: io::IOMEM.name(), xen: false, quick: 2_000_000, thorough: 100_000_000 },
+            Part { name: io::IOFD.name(), xen: false, quick: 1_000_000, thorough: 40_000_000 },
         ],
         rule: "in-memory part: seeded histories of up to 12 consecutive calls (read/read_exact/write/write_all, cursor repositioning incl. past the end) on one adapter (&[u8], &mut [u8], Vec<u8>, Cursor<&[u8]>, Cursor<Vec<u8>>, Cursor<&mut [u8]>) compared call by call with a std::io twin; descriptor part: up to 12 calls on a File, UnixStream, OwnedFd pipe, BorrowedFd or Stdout whose every read(2)/write(2) outcome (pass, shortened, 0, EINTR, EAGAIN, EIO/EBADF/EFAULT/ENOSPC) the tape decides, compared with a POSIX byte-stream model; distinct = distinct event-log hash; non-trivial = at least one full and at least one short/failed/fault-injected call",
         assumptions: COMMON_ASSUMPTIONS.to_vec(),
@@ -145,7 +145,7 @@ pub fn checks() -> Vec<Check> {
     });
     v.push(Check {
         prop: "C03",
-        parts: vec![Part { name: gm::GM.name(), xen: false, quick: 100_000, thorough: 4_000_000 }],
+        parts: vec![Part { name: gm::GM.name(), xen: false, quick: 1_000_000, thorough: 50_000_000 }],
         rule: "runs are seeded histories of up to 14 operations (buffer / slice / object / atomic / stream accesses at guest-memory level, accesses through get_slice + derivation and through find_region) by 1-3 actors switched between operations on a layout of 1-4 regions (anonymous or memfd-backed; touching, 1-byte holes, huge holes, at 0, ending at the top of the address space); after every step all regions are re-read through host pointers and backing files and compared with a flat sparse byte-array model; distinct = distinct event-log hash; non-trivial = at least one operation succeeded and one was rejected or cut off",
         assumptions: COMMON_ASSUMPTIONS.to_vec(),
         real: vec!["vm_memory GuestMemory::try_access and Bytes<GuestAddress>, GuestRegionMmap, GuestMemoryMmap, MmapRegion (compiled from /repo working tree)", "kernel mmap / memfd / pread"],
@@ -155,7 +155,7 @@ pub fn checks() -> Vec<Check> {
     for (prop, what) in [("C05", "every byte whose value changed is reported dirty by the owning region's bitmap at that region's own offset (diff-driven); a failed descriptor read leaves its whole target dirty"), ("C16", "the bitmap after an operation is exactly the bitmap before it plus the pages overlapping the bytes written (reads, loads, queries, derivations, stream writes out of memory and rejected requests mark nothing; only a failed descriptor read may mark its whole target)")] {
         v.push(Check {
             prop,
-            parts: vec![Part { name: gm::DIRTY_GM.name(), xen: false, quick: 100_000, thorough: 4_000_000 }, Part { name: mem::DIRTY_SLICE.name(), xen: false, quick: 100_000, thorough: 4_000_000 }],
+            parts: vec![Part { name: gm::DIRTY_GM.name(), xen: false, quick: 500_000, thorough: 20_000_000 }, Part { name: mem::DIRTY_SLICE.name(), xen: false, quick: 500_000, thorough: 20_000_000 }],
             rule: if prop == "C05" {
                 "runs are seeded histories of up to 10 write-type and read-type operations at guest-memory, region and derived-slice level (written data is the complement of the current contents), descriptor reads with injected syscall results, scripted readers that fail part-way, interleaved with bitmap resets/harvests, on 1-3 regions with real AtomicBitmaps (plain or Option) of page sizes 1, 2, 3, 16, 64, 4096 or larger than the region; oracle: every byte whose value changed is dirty in the owning region's bitmap, and a failed descriptor read leaves its whole target dirty; distinct = distinct event-log hash; non-trivial = at least one operation succeeded and one was rejected or cut off"
             } else {
@@ -171,7 +171,7 @@ pub fn checks() -> Vec<Check> {
     for prop in ["C10", "C12"] {
         v.push(Check {
             prop,
-            parts: vec![Part { name: hotplug::SEQ.name(), xen: false, quick: 60_000, thorough: 3_000_000 }],
+            parts: vec![Part { name: hotplug::SEQ.name(), xen: false, quick: 600_000, thorough: 30_000_000 }],
             rule: "runs are seeded histories of up to 25 handle operations (create anonymous / file-backed / externally mapped regions incl. overlapping, adjacent, duplicate-start and top-of-address-space bases and injected mmap failures; from_regions / from_arc_regions; insert_region; remove_region with right and wrong size or address; clone; publish into a GuestMemoryAtomic; snapshot; into_inner; replace; drop of any live handle in any order), every earlier handle kept alive and re-checked after each step against a model of the region lists and of the process address space (mmap/munmap seam); distinct = distinct event-log hash; non-trivial = at least one request accepted, one refused and one handle dropped mid-history",
             assumptions: COMMON_ASSUMPTIONS.to_vec(),
             real: vec!["vm_memory GuestMemoryMmap / GuestRegionMmap / MmapRegion (build, build_raw, Drop) / GuestMemoryAtomic (compiled from /repo working tree)", "arc-swap, std Arc", "kernel mmap/munmap/memfd when the injector passes through"],
@@ -181,7 +181,7 @@ pub fn checks() -> Vec<Check> {
     }
     v.push(Check {
         prop: "C11",
-        parts: vec![Part { name: hotplug::CONC.name(), xen: false, quick: 60_000, thorough: 3_000_000 }],
+        parts: vec![Part { name: hotplug::CONC.name(), xen: false, quick: 600_000, thorough: 30_000_000 }],
         rule: "runs are 1-3 reader coroutines (memory(), clone the guard, into_inner, re-observe what they hold, drop) and 1-2 updater coroutines (lock, snapshot current, derive by insert/remove of a uniquely tagged region, write a generation tag, replace - or give the lock back without replacing) on one GuestMemoryAtomic and its clones, switched before every ArcSwap load/store, at every lock attempt and at every unlock; history oracle stamped with the global event sequence number: wholeness, stability, recency, no lost replacement, no deadlock; distinct = distinct event-log hash; non-trivial = a context switch inside an operation, at least one replacement and one observation",
         assumptions: COMMON_ASSUMPTIONS.to_vec(),
         real: vec!["vm_memory::atomic (GuestMemoryAtomic, load guard, exclusive guard), GuestMemoryMmap (compiled from /repo working tree)", "arc-swap and std::sync::Mutex (real code, executed atomically between yield points; blocking replaced by a yielding try_lock loop)"],
@@ -190,7 +190,7 @@ pub fn checks() -> Vec<Check> {
     });
     v.push(Check {
         prop: "C15",
-        parts: vec![Part { name: "S-build", xen: false, quick: 100_000, thorough: 4_000_000 }, Part { name: "S-build", xen: true, quick: 60_000, thorough: 3_000_000 }],
+        parts: vec![Part { name: "S-build", xen: false, quick: 1_000_000, thorough: 40_000_000 }, Part { name: "S-build", xen: true, quick: 600_000, thorough: 30_000_000 }],
         rule: "runs are 1-6 construction requests each: unix build - MmapRegion::build / from_file / new with sizes incl. 0, file lengths at end-1 / end / end+1, offsets around the overflow boundary, unaligned offsets, unseekable files, flag words from a safe palette with and without MAP_FIXED, injected mmap failures, build_raw with aligned and misaligned pointers, GuestRegionMmap::new with guest bases near 2^64; xen build - MmapRegion::from_range over every value of the low five Xen flag bits (plus random high bits), with/without file, zero/non-zero offset, with the emulated device and injected ioctl / mmap failures; distinct = distinct event-log hash; non-trivial = at least one request accepted and one rejected",
         assumptions: COMMON_ASSUMPTIONS.to_vec(),
         real: vec!["vm_memory::mmap (check_file_offset, MmapRegionBuilder::build/build_raw, GuestRegionMmap::new; xen: MmapRegion::from_range, MmapXen*, MmapXenFlags) compiled from /repo working tree", "kernel mmap / memfd / pipe / lseek / pread / pwrite when the injector passes through (where the kernel decides a flag combination, its real verdict is the reference)"],
@@ -199,7 +199,7 @@ pub fn checks() -> Vec<Check> {
     });
     v.push(Check {
         prop: "C18",
-        parts: vec![Part { name: "S-zero", xen: false, quick: 100_000, thorough: 4_000_000 }, Part { name: "S-zero", xen: true, quick: 60_000, thorough: 3_000_000 }],
+        parts: vec![Part { name: "S-zero", xen: false, quick: 1_000_000, thorough: 40_000_000 }, Part { name: "S-zero", xen: true, quick: 600_000, thorough: 30_000_000 }],
         rule: "runs are up to 10 zero-length requests (empty buffers, zero-sized objects, zero-count stream transfers, copies of zero elements and of the crate-provided zero-sized element types) at slice, region and guest-memory level - and, in the xen build, on grant / foreign regions mapped in advance and on demand - at mapped addresses, one past a region, in a hole, 0 and the maximum address, on empty containers, interleaved at operation granularity with another actor's non-empty writes; distinct = distinct event-log hash; non-trivial = at least one request succeeded and (one was refused or more than three were issued)",
         assumptions: COMMON_ASSUMPTIONS.to_vec(),
         real: vec!["vm_memory Bytes implementations of VolatileSlice / GuestRegionMmap / GuestMemory, copy helpers, xen temporary mappings (compiled from /repo working tree, both builds)"],
@@ -208,7 +208,7 @@ pub fn checks() -> Vec<Check> {
     });
     v.push(Check {
         prop: "C17",
-        parts: vec![Part { name: "S-xen", xen: true, quick: 60_000, thorough: 3_000_000 }, Part { name: "S-mem", xen: false, quick: 60_000, thorough: 2_000_000 }],
+        parts: vec![Part { name: "S-xen", xen: true, quick: 600_000, thorough: 30_000_000 }, Part { name: "S-mem", xen: false, quick: 600_000, thorough: 20_000_000 }],
         rule: "runs are histories of up to 10 access operations (buffer / object / typed-ref / element-array / atomic / slice-to-slice / stream / descriptor accesses and pointer-guard inspections, offsets within a page and across page boundaries, element types of 1-32 bytes) on one Xen region - grant mapped on demand, grant mapped in advance, foreign, or plain unix - over an emulated gntdev/privcmd device, with now and then the next map ioctl or mmap made to fail; plus, in the standard build, the S-mem histories whose pointer-guard inspections (slice, typed reference, element array, last element; read and mutable guards) compare len() and as_ptr() with the accessor; distinct = distinct event-log hash; non-trivial = a device-backed region and more than one operation or an injected failure",
         assumptions: COMMON_ASSUMPTIONS.to_vec(),
         real: vec!["vm_memory::mmap::xen (MmapXen, MmapXenGrant, MmapXenForeign, MmapXenSlice), PtrGuard, volatile_memory accessors (compiled from /repo working tree with the xen feature)", "kernel mmap/munmap of the device memfd"],
